@@ -48,8 +48,9 @@ func planLines(plans [][]call) []string {
 }
 
 func runFreshView(rng *hx.Rng, r *hx.Run) result {
-	wrap := rng.Intn(4)
+	wrap := rng.Intn(nWraps)
 	w := newWorld(rng, wrap)
+	w.reenter = false // not every call of this scenario is part of the recorded history
 	root := w.views[0].v
 	// the parent's realm slice has spare capacity: two views extended from it at the same time must not share a backing array
 	parent, err := root.WithRealm(append(make([]byte, 0, 16), 0xb0))
